@@ -58,18 +58,19 @@ Delete(s, D) ==
                        !.casc = [x \in s.ids |-> IF x \in dep THEN s.ref[x]["refers"] ELSE @[x]]]
   IN  [s1 EXCEPT !.ref = [x \in s.ids |-> [a \in s.attrs |-> s.ref[x][a] \ all]]]
 
-\* revive of recycled x (recycle.rs): x and every recycled entry cascade-deleted with it; `refers`
-\* restored from cascade_deleted; refint checks the restored references (live targets only).
-Revive(s, x) ==
-  LET R  == {x} \cup {d \in s.ids : s.lv[d] = "recycled" /\ s.casc[d] = {x}}
+\* ONE revive over the ids X0 (recycle.rs): the recycled ones among them and every recycled entry
+\* cascade-deleted behind one of them; `refers` restored from cascade_deleted; refint checks the restored
+\* references (live targets only).
+Revive(s, X0) ==
+  LET X  == {x \in X0 \cap s.ids : s.lv[x] = "recycled"}
+      R  == X \cup {d \in s.ids : s.lv[d] = "recycled" /\ s.casc[d] # {} /\ s.casc[d] \subseteq X}
       s1 == [s EXCEPT !.lv = [y \in s.ids |-> IF y \in R THEN "live" ELSE @[y]],
                       !.ref = [y \in s.ids |-> IF y \in R /\ s.casc[y] # {}
                                                THEN [s.ref[y] EXCEPT !["refers"] = s.casc[y]] ELSE @[y]],
                       !.casc = [y \in s.ids |-> IF y \in R THEN {} ELSE @[y]]]
-      ok == /\ s.lv[x] = "recycled"
-            /\ \A y \in R : \A v \in s1.ref[y]["refers"] \ s.ref[y]["refers"] : LvOf(s1, v) = "live"
-  IN  IF ok THEN [st |-> s1, res |-> "ok"]
-      ELSE [st |-> s, res |-> IF s.lv[x] = "recycled" THEN "err" ELSE "ok"]
+      ok == \A y \in R : \A v \in s1.ref[y]["refers"] \ s.ref[y]["refers"] : LvOf(s1, v) = "live"
+  IN  IF X = {} THEN [st |-> s, res |-> "ok"]
+      ELSE IF ok THEN [st |-> s1, res |-> "ok"] ELSE [st |-> s, res |-> "err"]
 
 \* purge_recycled / purge_tombstones only change liveness classes of non-live entries
 Purge(s, P)  == [s EXCEPT !.lv = [x \in s.ids |-> IF x \in P /\ @[x] = "recycled" THEN "tombstone" ELSE @[x]],
